@@ -20,6 +20,7 @@ Can(e) ==
     [] e.ev = "conv" -> pc = "conv" /\ e.arg = front.type /\ ValidType(e.arg)
     [] e.ev = "finish" -> /\ pc = "finish" /\ e.before = parts /\ e.ok = shape.fin
                           /\ (e.ok => e.after = ApplyEdits(e.before, shape.edits))
+                          /\ (~e.ok => e.after = e.before)
     [] e.ev = "end" -> pc = "end" /\ e.out = Outcome(out)
     [] e.ev = "value" -> pc = "idle" /\ ValidParts(e.v)
     [] OTHER -> FALSE
